@@ -209,6 +209,40 @@ def run(ctx):
                            loc=loc(rm, o.node), path=p.describe() if not ok else None)
     if n_exit == 0 or n_enter == 0:
         ctx.unknown('T2.reg', rm.fq, 'enter()/exit() call sites not recognised (exit %d, enter %d)' % (n_exit, n_enter), rm.loc)
+    # T3.items: the items iterator handed back by enter() (second component of its result) may be a one-shot iterator
+    # (default_enter returns enumerate(...) / ItemsView): between the enter() call and the next loop pass it is traversed at most once
+    CONSUMERS = {'list', 'tuple', 'sorted', 'set', 'frozenset', 'dict', 'sum', 'max', 'min', 'any', 'all', 'next', 'reversed', 'enumerate',
+                 'zip', 'map', 'filter', 'len'}
+    worst_items = None
+    n_items = 0
+    for p in paths:
+        ops = p.ops
+        for o in ops:
+            if not (o.kind == 'call' and txt(o.val.func) == 'enter'):
+                continue
+            tk = [nm for nm, info in w.tokens.items() if info[0] == 'call' and len(info) > 2 and info[2] is o]
+            if not tk:
+                continue
+            comp = '%s[1]' % tk[0]
+            nxt = min([x.seq for x in ops if x.kind == 'loop_iter' and x.seq > o.seq] or [10 ** 9])
+            uses = []
+            for x in ops:
+                if not (o.seq < x.seq < nxt):
+                    continue
+                if x.kind == 'call' and call_name(x.val) in CONSUMERS and any(txt(a) == comp for a in x.val.args):
+                    uses.append(x)
+                elif x.kind == 'iter_start' and x.val is not None and txt(x.val) == comp:
+                    uses.append(x)
+            n_items = max(n_items, len(uses))
+            if len(uses) > 1 and worst_items is None:
+                worst_items = (p, uses)
+    if worst_items:
+        ctx.ob('T3.items', rm.fq, 'the items iterator returned by enter() is traversed at most once (it may be a one-shot iterator: a second '
+               'traversal finds it empty)', False, loc=loc(rm, worst_items[1][1].node),
+               detail='traversed at lines %s' % [x.line for x in worst_items[1]], path=worst_items[0].describe())
+    else:
+        ctx.ob('T3.items', rm.fq, 'the items iterator returned by enter() is traversed at most once on every path', True, loc=rm.loc,
+               detail='max traversals on a path: %d' % n_items, nontrivial=n_items > 0)
     # every item is offered to visit(): what is appended to the collected items is the visit result (or the identity
     # short-cut taken only for the default visit)
     n_app = 0
